@@ -66,6 +66,36 @@ static LIB_LIVE: AtomicUsize = AtomicUsize::new(0); // library-scope blocks of t
 static LIB_ALLOCS: AtomicU64 = AtomicU64::new(0);
 static LIB_FREES: AtomicU64 = AtomicU64::new(0);
 static ENABLED: AtomicBool = AtomicBool::new(true);
+/// Reuse mode (a per-run knob): freed library blocks are not quarantined but kept on LIFO free lists
+/// by exact size and handed out again at once, on any thread. Use-after-free then reads live data of
+/// another object instead of poison, and stale address-keyed state (ABA) gets its chance.
+static REUSE: AtomicBool = AtomicBool::new(false);
+const REUSE_BUCKETS: usize = 256;
+const REUSE_DEPTH: usize = 8;
+static mut REUSE_LISTS: [[(usize, usize, usize); REUSE_DEPTH]; REUSE_BUCKETS] = [[(0, 0, 0); REUSE_DEPTH]; REUSE_BUCKETS];
+
+/// own little generator for reuse decisions (the allocator cannot call into the choice stream);
+/// seeded per run from a drawn value, so the run stays a pure function of its choices
+static REUSE_RNG: AtomicU64 = AtomicU64::new(1);
+
+pub fn set_reuse_mode(on: bool, seed: u64) {
+    REUSE_RNG.store(seed | 1, Ordering::SeqCst);
+    REUSE.store(on, Ordering::SeqCst);
+}
+
+fn reuse_rand() -> u64 {
+    // xorshift64*, only ever advanced while the ledger lock is held
+    let mut x = REUSE_RNG.load(Ordering::Relaxed);
+    x ^= x >> 12;
+    x ^= x << 25;
+    x ^= x >> 27;
+    REUSE_RNG.store(x, Ordering::Relaxed);
+    x.wrapping_mul(0x2545_F491_4F6C_DD1D)
+}
+
+fn bucket(size: usize, align: usize) -> usize {
+    (size.wrapping_mul(31) ^ align) % REUSE_BUCKETS
+}
 
 // first violation of the run, kept in a fixed buffer
 static VIOL_SET: AtomicBool = AtomicBool::new(false);
@@ -243,7 +273,30 @@ unsafe impl GlobalAlloc for SimHeap {
         } else {
             layout
         };
-        let p = System.alloc(real);
+        let mut p: *mut u8 = std::ptr::null_mut();
+        if lib && REUSE.load(Ordering::Relaxed) {
+            let _g = lock();
+            #[allow(static_mut_refs)]
+            let list = &mut REUSE_LISTS[bucket(layout.size(), layout.align())];
+            // reuse a freed block of exactly this size in two cases out of three, and then a random one
+            // of those waiting: which of several same-sized blocks comes back, and whether a block and
+            // its companion (a chunk and its arena header, say) both come back, then varies per run
+            let r = reuse_rand();
+            if r % 3 != 0 {
+                let start = (r >> 8) as usize % REUSE_DEPTH;
+                for d in 0..REUSE_DEPTH {
+                    let k = (start + d) % REUSE_DEPTH;
+                    if list[k].0 != 0 && list[k].1 == layout.size() && list[k].2 == layout.align() {
+                        p = list[k].0 as *mut u8;
+                        list[k] = (0, 0, 0);
+                        break;
+                    }
+                }
+            }
+        }
+        if p.is_null() {
+            p = System.alloc(real);
+        }
         if p.is_null() {
             return p;
         }
@@ -304,8 +357,21 @@ unsafe impl GlobalAlloc for SimHeap {
                 LIB_LIVE.fetch_sub(1, Ordering::Relaxed);
             }
         }
+        if RUN_ACTIVE.load(Ordering::Relaxed) && e.flags & F_LIB != 0 && REUSE.load(Ordering::Relaxed) && has_canary {
+            // keep for immediate reuse by the next allocation of the same size (any thread)
+            #[allow(static_mut_refs)]
+            let list = &mut REUSE_LISTS[bucket(e.size, e.align as usize)];
+            if let Some(k) = (0..REUSE_DEPTH).find(|&k| list[k].0 == 0) {
+                list[k] = (ptr as usize, e.size, e.align as usize);
+                l.remove_at(i);
+                drop(g);
+                std::ptr::write_bytes(ptr, POISON, e.size);
+                return;
+            }
+        }
         let quarantine = RUN_ACTIVE.load(Ordering::Relaxed)
             && e.flags & F_LIB != 0
+            && !REUSE.load(Ordering::Relaxed)
             && l.quar_len < QUARANTINE_CAP
             && l.quar_bytes + real_size <= QUARANTINE_MAX_BYTES;
         if quarantine {
@@ -377,6 +443,22 @@ pub struct RunEnd {
 /// End of a run: drains the quarantine (checking the poison) and reports leaks.
 pub fn run_end() -> RunEnd {
     RUN_ACTIVE.store(false, Ordering::SeqCst);
+    // blocks waiting for reuse go back to the system
+    {
+        let _g = lock();
+        #[allow(static_mut_refs)]
+        unsafe {
+            for b in REUSE_LISTS.iter_mut() {
+                for e in b.iter_mut() {
+                    if e.0 != 0 {
+                        System.dealloc(e.0 as *mut u8, Layout::from_size_align_unchecked(e.1 + CANARY_LEN, e.2));
+                        *e = (0, 0, 0);
+                    }
+                }
+            }
+        }
+    }
+    REUSE.store(false, Ordering::SeqCst);
     if cfg!(miri) {
         return RunEnd { leaked_blocks: 0, leaked_bytes: 0, write_after_free: false, quarantined: 0 };
     }
